@@ -895,6 +895,11 @@ fn one_run(i: usize, run_seed: u64, b: &Budget) -> RunOut {
     // supplementary net: a burst of truly parallel executions of the same scenario (no baton), for
     // races inside synchronisation the lock wrapper cannot see; judged by the same oracle
     for _ in 0..(if large { 1 } else if hammer { b.hammer_bursts } else { b.free_runs }) {
+        // nothing to add once the scenario has shown a violation (and a real deadlock costs a
+        // stall timer per burst)
+        if !out.violations.is_empty() {
+            break;
+        }
         let ex = if hammer {
             let _gate = HAMMER_GATE.write().unwrap_or_else(|e| e.into_inner());
             execute(&scn, &su, &rf, Strategy::FreeRun, 0)
